@@ -211,6 +211,34 @@ def simplify_additions(gs, allowed):
     return count[0]
 
 
+def add_same_name_defaults(gs):
+    """Append a type in which members with the same identifier and DEFAULTs of the same kind sit at different
+    levels (the generated encoder/decoder keeps one constant per DEFAULT in one C function)."""
+    from ..asn.ast import Assign
+    rnd = core.random.Random(gs.key + '/dup')
+    m = gs.spec.modules[-1]
+    if m.find('Zdup') is not None:
+        return False
+
+    def octets():
+        n = rnd.randint(1, 3)
+        v = bytes(rnd.getrandbits(8) for _ in range(n))
+        return Comp('dup', T('OCTET STRING', size=Range(0, 3)), default=v, default_txt="'" + v.hex().upper() + "'H")
+
+    def integer():
+        v = rnd.randint(0, 9)
+        return Comp('num', T('INTEGER', rng=Range(0, 9)), default=v, default_txt=str(v))
+    inner = T('SEQUENCE', comps=[octets(), integer(), Comp('k', T('BOOLEAN'))])
+    inner2 = T('SEQUENCE', comps=[Comp('k', T('BOOLEAN')), octets()])
+    t = T('SEQUENCE', comps=[Comp('first', inner), octets(), integer(), Comp('second', inner2, optional=True)])
+    m.assigns.append(Assign('type', 'Zdup', t))
+    gs.text = spec_text(gs.spec)
+    gs.env = Env(gs.spec)
+    gs.legal = is_legal(gs.spec)
+    gs._compiled = {}
+    return True
+
+
 def pad_additions(gs, n):
     """Give one extensible SEQUENCE (without manual tags, no second root list) exactly n additions. -> bool"""
     rnd = core.random.Random(gs.key + '/pad')
@@ -263,6 +291,8 @@ def run_shard_for(ctx, ID, codec):
             st.inc('modules')
             if not gs.legal:
                 continue
+            if (ctx.shard + i) % 3 == 0 and add_same_name_defaults(gs):
+                st.inc('modules_with_same_name_defaults')
             if codec == 'oer':
                 if (ctx.shard + i) % 5 == 0 and pad_additions(gs, 8):
                     st.inc('modules_with_eight_additions')      # presence bitmap boundary (newer versions add the ninth)
